@@ -33,6 +33,8 @@ def read_via(kind, data, path, read_evlrs, chunked):
         src = st.NoReadintoStream(data)
     elif kind == "logged":
         src = st.LogStream(data)
+    elif kind == "bare":
+        src = st.BareReader(data)
     else:
         raise ValueError(kind)
     with laspy.open(src, read_evlrs=read_evlrs) as rd:
@@ -205,9 +207,11 @@ def run(ck):
             base = {"kind": "access", "minor": minor, "fmt": fmt, "n": n, "evlrs": nev,
                     "finding_key": "C17:" + ("zero_points_evlrs" if (n == 0 and nev) else "")}
             ref = None
-            for kind in ("bytesio", "path", "bytes", "buffered", "readonly_iface", "no_readinto", "logged"):
-                if flagged and kind == "readonly_iface":
+            for kind in ("bytesio", "path", "bytes", "buffered", "readonly_iface", "no_readinto", "logged", "bare"):
+                if flagged and kind in ("readonly_iface", "bare"):
                     continue
+                if kind == "bare" and nev:
+                    continue        # with EVLRs laspy asks the source whether it can seek: an object without seekable() is outside (DESIGN section 8)
                 for read_evlrs in (True, False):
                     for chunked in (False, True):
                         inp = dict(base, source=kind, read_evlrs=read_evlrs, chunked=chunked)
@@ -224,7 +228,7 @@ def run(ck):
                             ck.fail(f"reading through {kind} (read_evlrs={read_evlrs}, chunked={chunked}) differs from BytesIO (first difference at char {k0}: ...{res[max(0,k0-20):k0+30]} vs ...{ref[max(0,k0-20):k0+30]})", inp)
                         if kind == "readonly_iface" and log is not None and any(c in ("seek", "tell") for c in log):
                             ck.fail(f"a non-seekable source was asked to {[c for c in log if c in ('seek', 'tell')][0]}", inp)
-                        if log is not None and not flagged:
+                        if log is not None and not flagged and kind != "bare":
                             sk, ri = {"readonly_iface": (0, 0), "no_readinto": (1, 0), "logged": (1, 1)}[kind]
                             size = las.header.point_format.size
                             off = int.from_bytes(data[96:100], "little")
